@@ -84,14 +84,20 @@ class Harness:
         delays: Optional[Dict[str, Any]] = None,
         extra_actions: Optional[Dict[str, Any]] = None,
         extra_guards: Optional[Dict[str, Any]] = None,
+        extra_markers: Optional[List[str]] = None,
         with_plugin: bool = True,
         with_subscriber: bool = False,
         fresh_machine: bool = False,
         budget: Optional[int] = 4000,
+        threads: bool = False,
     ) -> None:
         self.cfg = cfg
         self.rec = Recorder()
         self.rec.budget = budget
+        if extra_markers:
+            extra_actions = dict(extra_actions or {})
+            for name in extra_markers:
+                extra_actions[name] = self.rec.marker(name)
         self._kw = dict(
             guards=guards, services=services, delays=delays, extra_actions=extra_actions,
             extra_guards=extra_guards,
@@ -99,6 +105,7 @@ class Harness:
         self.with_plugin = with_plugin
         self.with_subscriber = with_subscriber
         self.fresh_machine = fresh_machine
+        self.threads = threads
         self._machine = None
 
     def machine(self):
@@ -136,6 +143,9 @@ class Harness:
     def driver(self, engine: str):
         # one log per execution: the budget and `mark()` are per driver
         self.rec.log = []
+        from .core import LOG
+
+        LOG.reset()
         return {"sync": self.sync, "async": self.asyn, "pure": self.pure}[engine]()
 
 
@@ -145,8 +155,29 @@ class SyncDriver:
     def __init__(self, h: Harness, interp: Any = None) -> None:
         self.h = h
         self.rec = h.rec
+        self._inst = None
+        self.sched = None
+        if h.threads:
+            from .threads import Installed
+
+            self._inst = Installed()
+            self.sched = self._inst.__enter__()
         self.interp = interp if interp is not None else h._attach(SyncInterpreter(h.machine()))
         self.raised: List[BaseException] = []
+
+    # ---- virtual threads (only with Harness(threads=True)) -----------------
+    def settle(self) -> None:
+        """Runs threads that are runnable right now (no time passes)."""
+        if self.sched is not None:
+            self.sched.run_all(until=self.sched.now)
+
+    def advance(self, dt: float) -> None:
+        """Default schedule: let virtual time pass, firing timers in deadline order."""
+        if self.sched is not None:
+            self.sched.run_all(until=self.sched.now + dt)
+
+    def now(self) -> float:
+        return self.sched.now if self.sched is not None else 0.0
 
     def start(self) -> Optional[BaseException]:
         try:
@@ -199,7 +230,9 @@ class SyncDriver:
         return None
 
     def close(self) -> None:
-        pass
+        if self._inst is not None:
+            inst, self._inst = self._inst, None
+            inst.__exit__(None, None, None)
 
 
 class AsyncDriver:
@@ -250,6 +283,9 @@ class AsyncDriver:
     def advance(self, dt: float) -> None:
         with self.loop.active():
             self.loop.advance_to(self.loop.time() + dt, self.max_iters)
+
+    def now(self) -> float:
+        return self.loop.time()
 
     def observe(self) -> tuple:
         return canon_interp(self.interp)
